@@ -124,6 +124,15 @@ CHECKS = {
             "min/max, any NaN where due); float programs are run natively against emulation over n, alignment, 2-D and finite all-pairs tables.",
             "caller MXCSR default; generated-C path covered by C04/C07; operands outside the alphabet not covered",
             "DESIGN.md 4/C18", True),
+    "C15": ("xtext", "exploration",
+            "bounded exhaustive enumeration of program descriptors x text renderings (formatting cross product) parsed by the real parser and compared with an API-built twin",
+            "Every program descriptor of the enumerated levels is rendered by an independent printer over the cross product of line endings, "
+            "indentation, operand separators, comments, blank lines, literal spellings, type names, final newline and named/inline "
+            "constants (full product for every 16th program in quick, for all in thorough), parsed, and compared with the program built "
+            "through the construction API: no errors, same variables, classes, sizes, alignments, type names, parameter classes, constants, "
+            "flags, instruction order and operand binding, same emulation result.",
+            "the printer and the API twin come from one descriptor (the printer is independent of the parser); AddressSanitizer + bounds build",
+            "DESIGN.md 4/C15", True),
 }
 
 NOT_YET = {}
@@ -164,6 +173,8 @@ def main():
             "add_only": True,
         },
         "engines": [
+            {"name": "xtext", "path": "engines/xtext.c", "serves_properties": ["C15"],
+             "kind_free_text": "independent .orc printer over a formatting cross product + field-by-field comparison of parsed program and API twin"},
             {"name": "xemu", "path": "engines/xemu.c", "serves_properties": ["C02", "C18"],
              "kind_free_text": "per-opcode operand-table enumerator on a chosen path against ref/orcref.h"},
             {"name": "xmem", "path": "engines/xmem.c", "serves_properties": ["C03"],
